@@ -99,7 +99,8 @@ class ExecImpl:
 
     def define(self, c):
         # "lam": the formula is handed to modelx as a lambda expression instead of a def
-        src, lm = self.rend.render("c%d" % c["id"], c["id"], c["nparams"], c["body"], lam=bool(c.get("lam")))
+        src, lm = self.rend.render("c%d" % c["id"], c["id"], c["nparams"], c["body"], lam=bool(c.get("lam")),
+                                   enforce_none=bool(c.get("enforce_none")))
         self.sources[c["id"]] = src
         self.linemaps[c["id"]] = lm
         cells = self.S.new_cells("c%d" % c["id"], formula=src, is_cached=c["cached"])
